@@ -515,8 +515,8 @@ theorem save_entries_refines (w : Wal) (h : WF w) (hs : HardState) (es : List En
       show D.ents.getLast? = some el
       rw [hDe, List.getLast?_append, hel]
       rfl
-    · intro f hf'
-      obtain ⟨e, he, hfe⟩ := hwf1.cFirst f hf'
+    · intro hcs f hf'
+      obtain ⟨e, he, hfe⟩ := hwf1.cFirst hcs f hf'
       rw [hdisk, ha] at he
       have : e = a := (Option.some.inj he).symm
       subst this
@@ -749,18 +749,8 @@ theorem createSnapshot_refines (w : Wal) (h : WF w) (idx conf data : Nat)
       rw [this, hlenD, hll, ← heli, hidx]
       show idx + (w.disk.ents.length - (idx - x0.index)) - 1 = x0.index + w.disk.ents.length - 1
       omega
-  · intro f hf'
-    cases hcf : w1.cache.first with
-    | none => simp [hcf] at hf'
-    | some v =>
-      obtain ⟨e2, he2, hv⟩ := hwf1.cFirst v hcf
-      rw [hdisk, ha'] at he2
-      have : e2 = x0 := (Option.some.inj he2).symm
-      subst this
-      simp only [hcf] at hf'
-      have hvle : v ≤ idx := by omega
-      simp only [hvle, if_true] at hf'
-      exact ⟨_, hheadD, (Option.some.inj hf').symm⟩
+  · intro hcs
+    simp [Wal.cachedSnap, hsne] at hcs
   · intro s hs'
     show D.ss = some s
     rw [hDs]
@@ -774,6 +764,81 @@ end Anndb.Wal
 
 namespace Anndb.Wal
 
+/-- **`Save` with a received snapshot (and no entries, as etcd/raft hands it over) refines
+`MemoryStorage.ApplySnapshot` + `SetHardState`**: the whole log is wiped, the snapshot and its
+dummy entry are written, in that order (repair D13) -/
+theorem save_snapshot_refines (w : Wal) (h : WF w) (hs : HardState) (s : Snap)
+    (hnew : (abs w).snap.index < s.index) :
+    ∃ w' m1, w.save hs [] s = .ok w' ∧ WF w' ∧ (abs w).applySnapshot s = .ok m1 ∧
+      abs w' = { m1 with hs := if hs.isEmpty then (abs w).hs else hs } := by
+  have hsne : s.isEmpty = false := by simp [Snap.isEmpty]; omega
+  have hm1 : (abs w).applySnapshot s = .ok { abs w with snap := s, ents := [⟨s.index, s.term, 0, 0⟩] } := by
+    unfold Mem.applySnapshot
+    have : ¬ ((abs w).snap.index ≥ s.index) := by omega
+    simp only [this, if_false]
+  -- the disk after the flush
+  have hD : ∀ ops3 : List BOp, (ops3 = [] ∧ hs.isEmpty = true) ∨ (ops3 = [BOp.setHS hs] ∧ hs.isEmpty = false) →
+      (w.disk.flush (w.delFrom 0 ++ [BOp.setSS s, BOp.setEntry ⟨s.index, s.term, 0, 0⟩] ++ [] ++ ops3)).ents =
+        [⟨s.index, s.term, 0, 0⟩] ∧
+      (w.disk.flush (w.delFrom 0 ++ [BOp.setSS s, BOp.setEntry ⟨s.index, s.term, 0, 0⟩] ++ [] ++ ops3)).ss = some s ∧
+      (w.disk.flush (w.delFrom 0 ++ [BOp.setSS s, BOp.setEntry ⟨s.index, s.term, 0, 0⟩] ++ [] ++ ops3)).hs =
+        (if hs.isEmpty = true then w.disk.hs else some hs) := by
+    intro ops3 hcase
+    have hdel : w.delFrom 0 = ((w.disk.ents.filter (·.index ≥ 0)).map (·.index)).map BOp.delEntry := by
+      simp [Wal.delFrom, List.map_map, Function.comp]
+    have hwiped : (w.disk.flush (w.delFrom 0)).ents = [] := by
+      rw [hdel, flush_ents, flush_dels_ents]
+      apply List.filter_eq_nil_iff.mpr
+      intro x hx
+      simp only [Bool.not_eq_true', Bool.not_eq_false', List.contains_eq_mem, decide_eq_true_eq, List.mem_map,
+        List.mem_filter]
+      simpa using ⟨x, hx, rfl⟩
+    have hwss : (w.disk.flush (w.delFrom 0)).ss = w.disk.ss := by rw [hdel]; exact flush_dels_ss _ _
+    have hwhs : (w.disk.flush (w.delFrom 0)).hs = w.disk.hs := by rw [hdel]; exact flush_dels_hs _ _
+    rw [List.append_nil, List.append_assoc, flush_append]
+    generalize w.disk.flush (w.delFrom 0) = d0 at hwiped hwss hwhs
+    rcases hcase with ⟨rfl, hemp⟩ | ⟨rfl, hne⟩
+    · simp only [List.append_nil, Disk.flush, List.foldl_cons, List.foldl_nil, Disk.apply, hwiped, insertSorted, hemp,
+        if_true]
+      exact ⟨trivial, trivial, hwhs⟩
+    · simp only [List.cons_append, List.nil_append, Disk.flush, List.foldl_cons, List.foldl_nil, Disk.apply, hwiped,
+        insertSorted, hne, Bool.false_eq_true, if_false]
+      exact ⟨trivial, trivial, trivial⟩
+  unfold Wal.save
+  simp only [hsne, Bool.false_eq_true, if_false, Wal.writeSnapshot, Wal.writeEntries, bind, Except.bind]
+  by_cases hemp : hs.isEmpty = true
+  · obtain ⟨hE, hS, hH⟩ := hD [] (Or.inl ⟨rfl, hemp⟩)
+    simp only [hemp, if_true]
+    refine ⟨_, _, rfl, ⟨?_, ?_, ?_, ?_, ?_, ?_⟩, hm1, ?_⟩
+    · simp only [hE]; simp
+    · simp only [hE]; trivial
+    · intro l hl
+      simp only [hE]
+      exact ⟨_, rfl, by simpa using hl⟩
+    · intro hcs; simp [Wal.cachedSnap, hsne] at hcs
+    · intro s' hs'
+      simp only [hS]
+      simpa [Wal.cachedSnap, hsne] using hs'
+    · simp only [hE, hS]; exact ⟨_, rfl, rfl⟩
+    · simp only [abs, Wal.hardState, hE, hS, hH, hemp, if_true, absEnts]
+      rfl
+  · have hne : hs.isEmpty = false := by cases hx : hs.isEmpty <;> simp_all
+    obtain ⟨hE, hS, hH⟩ := hD [BOp.setHS hs] (Or.inr ⟨rfl, hne⟩)
+    simp only [hne, Bool.false_eq_true, if_false]
+    refine ⟨_, _, rfl, ⟨?_, ?_, ?_, ?_, ?_, ?_⟩, hm1, ?_⟩
+    · simp only [hE]; simp
+    · simp only [hE]; trivial
+    · intro l hl
+      simp only [hE]
+      exact ⟨_, rfl, by simpa using hl⟩
+    · intro hcs; simp [Wal.cachedSnap, hsne] at hcs
+    · intro s' hs'
+      simp only [hS]
+      simpa [Wal.cachedSnap, hsne] using hs'
+    · simp only [hE, hS]; exact ⟨_, rfl, rfl⟩
+    · simp only [abs, Wal.hardState, hE, hS, hH, hne, Bool.false_eq_true, if_false, absEnts]
+      rfl
+
 /-! ## histories -/
 
 theorem wf_fresh : WF Wal.fresh ∧ abs Wal.fresh = Mem.init := by
@@ -783,7 +848,7 @@ theorem wf_fresh : WF Wal.fresh ∧ abs Wal.fresh = Mem.init := by
   rw [hd]
   refine ⟨⟨by simp, trivial, ?_, ?_, ?_, ⟨⟨0, 0, 0, 0⟩, rfl, rfl⟩⟩, rfl⟩
   · intro l hl; simp [emptyCache] at hl
-  · intro f hf; simp [emptyCache] at hf
+  · intro _ f hf; simp [emptyCache] at hf
   · intro s hs; simp [Wal.cachedSnap, emptyCache] at hs
 
 /-- the write operations of a history: a batch of entries with a hard state (`Save` without a
@@ -791,6 +856,7 @@ received snapshot), a local snapshot + compaction (`CreateSnapshot`), a reopen o
 inductive WOp where
   | append (hs : HardState) (es : List Entry)
   | compact (idx conf data : Nat)
+  | install (hs : HardState) (s : Snap)
   | reopen
 
 /-- the specification's run, with the legality of each call decided on the specification state:
@@ -813,6 +879,12 @@ def runM : Mem → List WOp → Option Mem
         | .error _ => none
       | .error _ => none
     else none
+  | m, .install hs s :: rest =>
+    if m.snap.index < s.index then
+      match m.applySnapshot s with
+      | .ok m1 => runM { m1 with hs := if hs.isEmpty then m.hs else hs } rest
+      | .error _ => none
+    else none
   | m, .reopen :: rest => runM m rest
 
 def runW : Wal → List WOp → Option Wal
@@ -823,6 +895,10 @@ def runW : Wal → List WOp → Option Wal
     | .error _ => none
   | w, .compact idx conf data :: rest =>
     match w.createSnapshot idx (some conf) data with
+    | .ok w' => runW w' rest
+    | .error _ => none
+  | w, .install hs s :: rest =>
+    match w.save hs [] s with
     | .ok w' => runW w' rest
     | .error _ => none
   | w, .reopen :: rest => runW (Wal.open_ w.disk) rest
@@ -865,6 +941,17 @@ theorem run_refines (ops : List WOp) (w : Wal) (m m' : Mem) (h : WF w) (ha : abs
         simp only [hm2] at hm
         obtain ⟨w2, hr, hwf2, habs2⟩ := ih w1 _ hwf1 habs1 hes' hm
         exact ⟨w2, by simp only [runW, hc]; exact hr, hwf2, habs2⟩
+      · cases hm
+    | install hs s =>
+      simp only [runM] at hm
+      split at hm
+      · rename_i hleg
+        subst ha
+        obtain ⟨w1, m1, hs1, hwf1, hm1, habs1⟩ := save_snapshot_refines w h hs s hleg
+        rw [hm1] at hm
+        simp only at hm
+        obtain ⟨w2, hr, hwf2, habs2⟩ := ih w1 _ hwf1 habs1 hes' hm
+        exact ⟨w2, by simp only [runW, hs1]; exact hr, hwf2, habs2⟩
       · cases hm
     | reopen =>
       simp only [runM] at hm
